@@ -93,6 +93,8 @@ def snapshot_df(df):
         'dtypes': [str(t) for t in df.dtypes],
         'index': [repr(i) for i in df.index],
         'index_type': type(df.index).__name__,
+        'attrs': repr(sorted(df.attrs.items())) if hasattr(df, 'attrs') else '',
+        'flags': repr(getattr(getattr(df, 'flags', None), 'allows_duplicate_labels', None)),
         'cells': [[cell(v) for v in df[c].tolist()] for c in df.columns] if len(df.columns) == len(set(df.columns)) else
                  [[cell(v) for v in df.iloc[:, i].tolist()] for i in range(df.shape[1])],
     }
@@ -219,6 +221,21 @@ def join_kwargs(call):
     kw['show_progress'] = bool(call.get('show_progress', False))
     if call.get('same_out_list') and kw.get('l_out_attrs') is not None:
         kw['r_out_attrs'] = kw['l_out_attrs']      # ONE list object handed over for both sides
+    if call.get('out_attrs_as') == 'tuple':
+        for k in ('l_out_attrs', 'r_out_attrs'):
+            if isinstance(kw.get(k), list):
+                kw[k] = tuple(kw[k])
+    if call.get('n_jobs_as') == 'numpy' and 'n_jobs' in kw:
+        kw['n_jobs'] = np.int64(kw['n_jobs'])
+    if call.get('omit_defaults'):
+        # leave out every keyword whose value equals the documented default
+        defaults = {'comp_op': '<=' if call.get('api') == 'edit_distance_join' else '>=',
+                    'allow_empty': True, 'allow_missing': False, 'l_out_attrs': None, 'r_out_attrs': None,
+                    'l_out_prefix': 'l_', 'r_out_prefix': 'r_', 'out_sim_score': True, 'n_jobs': 1}
+        for k, d in defaults.items():
+            if k in kw and (kw[k] is d or (not isinstance(d, bool) and d is not None and kw[k] == d
+                                           and type(kw[k]) is type(d))):
+                del kw[k]
     return kw
 
 
